@@ -264,6 +264,10 @@ def policy_dirs(root, cats, pkgs):
         d = os.path.join('metadata/md5-cache', c)
         if os.path.isdir(os.path.join(root, d)):
             want.add(d)
+    mc = os.path.join(root, 'metadata/md5-cache')
+    if os.path.isdir(mc):
+        # the metadata cache has one Manifest per directory, whether or not profiles/categories names it
+        want.update(os.path.join('metadata/md5-cache', d) for d in os.listdir(mc) if os.path.isdir(os.path.join(mc, d)))
     want.update(pkgs)
     for d in ('eclass', 'licenses', 'metadata', 'profiles', 'metadata/dtd', 'metadata/glsa', 'metadata/md5-cache',
               'metadata/news', 'metadata/xml-schema'):
@@ -285,6 +289,20 @@ def c19(rng, tier, repo):
                 rng.setstate(rng_state)
             with C.Scratch() as root:
                 cats, pkgs = gen_repo(root, rng)
+                shape = ('plain', 'empty-standard-dirs', 'package-dir-without-ebuild', 'plain')[i % 4]
+                if shape == 'empty-standard-dirs':
+                    # directories the policy names unconditionally, present but empty
+                    os.unlink(os.path.join(root, 'licenses', 'GPL-2'))
+                    os.unlink(os.path.join(root, 'metadata', 'glsa', 'glsa-1.xml'))
+                    os.makedirs(os.path.join(root, 'metadata', 'md5-cache', 'dev-empty'))
+                    with open(os.path.join(root, 'profiles', 'categories'), 'a') as fh:
+                        fh.write('dev-empty\n')
+                elif shape == 'package-dir-without-ebuild' and cats:
+                    # a former package directory: files/ is left, no ebuild, no metadata.xml -- the category Manifest governs it
+                    os.makedirs(os.path.join(root, cats[0], 'gone', 'files', 'sub'))
+                    for rel_ in ('files/gone.patch', 'files/sub/deep.patch', 'README'):
+                        with open(os.path.join(root, cats[0], 'gone', rel_), 'w') as fh:
+                            fh.write(rel_)
                 override = rng.random() < 0.3
                 # an explicit format alone (profile watermark stays): the third iteration of every profile, otherwise random
                 fmt_only = (profile != 'default') and not override and (i % 3 == 2 or rng.random() < 0.15)
@@ -302,7 +320,7 @@ def c19(rng, tier, repo):
                 n += 1
                 distinct += 1
                 desc = {'profile': profile, 'categories': cats, 'packages': pkgs, 'override': override, 'format_only': fmt_only,
-                        'listing_order': order}
+                        'listing_order': order, 'shape': shape}
                 if len(samples) < 2:
                     samples.append(desc)
                 if st != 0:
@@ -365,11 +383,14 @@ def c19(rng, tier, repo):
                             want_c = unc >= 128 and not (profile == 'old-ebuild' and h in pkgs)
                             if compressed != want_c or (compressed and fl[0] != ('Manifest.bz2' if fmt_only else 'Manifest.gz')):
                                 viol.append(dict(desc, what='C19 %s/%s: %d bytes uncompressed' % (h, fl[0], unc), key='watermark:' + profile, props=['C19', 'C13']))
-                # verify with a plain (default profile) loader
+                # verify with a plain (default profile) loader; every file is covered by the Manifest that governs it
                 v = C.run_cli(['verify', root])
                 if v != 0:
                     viol.append(dict(desc, what='C19 result of create -p %s does not verify with a plain loader: %r' % (profile, v),
                                      key='verify:' + profile, props=['C19']))
+                probs = C.describes_exactly(root, ['SHA1'] if (profile == 'default' or override) else ['BLAKE2B', 'SHA512'])
+                if probs:
+                    viol.append(dict(desc, what='C19 result of create -p %s: %s' % (profile, probs[:3]), key='describes:' + profile, props=['C19']))
                 # edit + update with the same profile keeps verifying
                 if pkgs:
                     with open(os.path.join(root, pkgs[0], 'files', 'added.patch'), 'w') as f:
@@ -393,7 +414,8 @@ def c20(rng, tier, repo):
     # plain generated repositories, then the same with one file whose name is portable but unusual (the names for which
     # the agreement lemmas of contracts/utils_scripts.py fail; a nested files/files/ directory for the AUX path rule)
     variants = [None] * (6 if tier == 'quick' else 80) + ['manifest-like-name', 'timestamp-outside-metadata', 'nested-files-dir',
-                                                            'category-without-packages', 'package-without-ebuild']
+                                                            'category-without-packages', 'package-without-ebuild', 'large-files',
+                                                            'dot-directory']
     for i, variant in enumerate(variants):
         with C.Scratch() as root:
             cats, pkgs = gen_repo(root, rng, with_ignored=False)
@@ -419,6 +441,20 @@ def c20(rng, tier, repo):
                     fh.write('<catmetadata/>')
                 with open(os.path.join(root, 'profiles', 'categories'), 'a') as fh:
                     fh.write('dev-empty\n')
+            elif variant == 'large-files':
+                # files beyond any block size a reader might use (64 KiB, 1 MiB), in a package and in a plain directory
+                if pkgs:
+                    with open(os.path.join(root, pkgs[0], 'files', 'big.patch'), 'wb') as fh:
+                        fh.write(bytes(range(256)) * 430)           # 110 080 bytes
+                with open(os.path.join(root, 'eclass', 'huge.eclass'), 'wb') as fh:
+                    fh.write(b'# eclass\n' * 130000)                 # 1 170 000 bytes
+            elif variant == 'dot-directory':
+                # hidden directories (with visible file names inside) and hidden files: left out by gemato
+                os.makedirs(os.path.join(root, '.github', 'workflows'))
+                for rel_ in ('.github/workflows/ci.yml', '.editorconfig', 'eclass/.hidden/visible.txt'):
+                    os.makedirs(os.path.dirname(os.path.join(root, rel_)), exist_ok=True)
+                    with open(os.path.join(root, rel_), 'w') as fh:
+                        fh.write(rel_)
             elif variant == 'package-without-ebuild':
                 # a package directory that has lost its last ebuild (metadata.xml and files/ are still there)
                 if not cats:
